@@ -1,3 +1,5 @@
 void h_mpi(void) { vec_u8 *in; gcry_mpi_t *out; size_t *sum; PacketMPIDecode(in, out, sum); }
 void h_mpi_secure(void) { vec_u8 *in; gcry_mpi_t *out; size_t *sum; PacketMPIDecode_secure(in, out, sum); }
 void h_string(void) { vec_u8 *in; str_t *out; PacketStringDecode(in, out); }
+void h_mpi2(void) { vec_u8 *in; gcry_mpi_t *out; PacketMPIDecode2(in, out); }
+void h_mpi2_secure(void) { vec_u8 *in; gcry_mpi_t *out; PacketMPIDecode2_secure(in, out); }
